@@ -670,6 +670,184 @@ fn case_highlight(case: &Value, scn: usize, out: &mut Vec<Value>) -> Result<usiz
   Ok(finish_scn(out, scn, "highlight-case", cx, vec![ev]))
 }
 
+// ------------------------------------------------------------------------------------------------
+// C22: completion suggestions
+// ------------------------------------------------------------------------------------------------
+
+#[derive(Clone, Debug)]
+struct SuggestA {
+  field: String,
+  prefix: String,
+  size: usize,
+  fuzzy: Option<(u8, usize, usize, usize)>, // max_edits, prefix_length, max_expansions, min_length
+}
+
+fn render_suggest(s: &SuggestA) -> Value {
+  let mut m = json!({"type": "completion", "field": s.field, "prefix": s.prefix, "size": s.size});
+  if let Some((e, p, x, l)) = s.fuzzy {
+    m["fuzzy"] = json!({"max_edits": e, "prefix_length": p, "max_expansions": x, "min_length": l});
+  }
+  m
+}
+
+fn obs_options(res: &std::result::Result<SearchResult, String>, dict: &mut Dict) -> Value {
+  match res {
+    Ok(r) => {
+      let opts: Vec<Value> = r.suggest.get("s").map(|x| x.options.clone()).unwrap_or_default().iter().map(|o| {
+        dict.add(&o.text);
+        json!({"t": o.text, "df": o.doc_freq, "sc": (o.score as f64 * 10000.0).round() as i64, "sb": sbits(o.score)})
+      }).collect();
+      json!({"ok": true, "err": "", "options": opts})
+    }
+    Err(e) => json!({"ok": false, "err": e, "options": []}),
+  }
+}
+
+fn gen_suggest(r: &mut StdRng, cx: &Ctx) -> SuggestA {
+  let field = pick(r, &["body", "body", "title", "tag", "cat"]).to_string();
+  let base: String = match field.as_str() {
+    "tag" => pick(r, &KW_TAGS).to_string(),
+    "cat" => pick(r, &KW_CATS).to_string(),
+    _ => if chance(r, 1, 5) { xword(r) } else { corpus_word(r, cx) },
+  };
+  let chars: Vec<char> = base.chars().collect();
+  let fuzzy = if chance(r, 1, 2) {
+    None
+  } else {
+    Some((r.gen_range(1..=2) as u8, r.gen_range(0..=2), *pick(r, &[1usize, 2, 5, 50, 50]), r.gen_range(0..=4)))
+  };
+  // prefix mode: a proper prefix; fuzzy mode: the word with one or two edits
+  let mut p: Vec<char> = if fuzzy.is_some() && chance(r, 2, 3) {
+    let mut w = chars.clone();
+    for _ in 0..r.gen_range(0..=2) {
+      if w.is_empty() {
+        break;
+      }
+      let i = r.gen_range(0..w.len());
+      match r.gen_range(0..3) {
+        0 => {
+          w.remove(i);
+        }
+        1 => w.insert(i, *pick(r, &['a', 'r', 'u', 'x'])),
+        _ => w[i] = *pick(r, &['a', 'r', 'u', 'x']),
+      }
+    }
+    w
+  } else {
+    let n = r.gen_range(0..=chars.len().min(4));
+    chars[..n].to_vec()
+  };
+  match r.gen_range(0..6) {
+    0 => p = p.iter().flat_map(|c| c.to_uppercase()).collect(),
+    1 if field == "body" || field == "title" => {
+      let mut q: Vec<char> = "the ".chars().collect();
+      q.extend(p);
+      p = q;
+    }
+    _ => {}
+  }
+  SuggestA { field, prefix: p.into_iter().collect(), size: r.gen_range(0..=6), fuzzy }
+}
+
+fn suggest_event(cx: &mut Ctx, sg: &SuggestA, first: Option<&Value>) -> Value {
+  let req = json!({"query": {"type": "match_all"}, "limit": 1, "return_stored": false, "suggest": {"s": render_suggest(sg)}});
+  let res = run_search(&cx.reader, &req);
+  let kind = if sg.field == "tag" || sg.field == "cat" { "kw" } else { "text" };
+  let toks: Vec<String> = if kind == "text" { analyse_search(&cx.b.schema, &sg.field, &sg.prefix).into_iter().map(|(t, _)| t).collect() } else { vec![] };
+  cx.dict.add(&sg.prefix);
+  for t in toks.iter() {
+    cx.dict.add(t);
+  }
+  let obs = obs_options(&res, &mut cx.dict);
+  let (e, p, x, l) = sg.fuzzy.unwrap_or((0, 0, 0, 0));
+  json!({
+    "ev": "search", "check": "suggest", "prop": "C22", "field": sg.field, "kind": kind,
+    "raw": sg.prefix, "toks": toks, "size": sg.size,
+    "fuzzy": {"has": sg.fuzzy.is_some(), "edits": e, "plen": p, "maxexp": x, "minlen": l},
+    "obs": obs, "hasfirst": first.is_some(), "first": first.cloned().unwrap_or(json!([])), "req": req.to_string(),
+  })
+}
+
+/// One corpus (no upserts, no deletions) in 2-3 segment layouts; every request runs on every layout.
+fn mode_suggest(r: &mut StdRng, scn0: usize, n_req: usize, out: &mut Vec<Value>) -> Result<usize> {
+  let mut knobs = Knobs::default();
+  knobs.nested = false;
+  knobs.deletions = false;
+  let schema = make_schema(r, &knobs);
+  let n_docs = r.gen_range(6..=28);
+  let vocab = r.gen_range(4..=WORDS.len());
+  let docs: Vec<Value> = (0..n_docs).map(|i| make_doc(r, &knobs, &format!("d{i:02}"), i as u64 + 1, vocab)).collect();
+  let n_layouts = r.gen_range(2..=3);
+  let mut requests: Vec<SuggestA> = Vec::new();
+  let mut firsts: Vec<Value> = Vec::new();
+  let mut total = 0;
+  for layout in 0..n_layouts {
+    let n_commits = if layout == 0 { 1 } else { r.gen_range(2..=4) };
+    let mut commits: Vec<Vec<Value>> = vec![vec![]; n_commits];
+    for d in docs.iter() {
+      let c = if layout == 0 { 0 } else { r.gen_range(0..n_commits) };
+      commits[c].push(d.clone());
+    }
+    let storage = storage_kind(r);
+    let b = build_literal(schema.clone(), &commits, storage)?;
+    let mut cx = open_ctx(b, storage, scn0 * 10 + layout)?;
+    if layout == 0 {
+      requests = (0..n_req).map(|_| gen_suggest(r, &cx)).collect();
+    }
+    let mut searches = Vec::new();
+    for (i, sg) in requests.iter().enumerate() {
+      let ev = suggest_event(&mut cx, sg, if layout == 0 { None } else { firsts.get(i) });
+      if layout == 0 {
+        firsts.push(ev["obs"]["options"].clone());
+      }
+      searches.push(ev);
+    }
+    total += finish_scn(out, scn0 * 10 + layout, "suggest", cx, searches);
+  }
+  Ok(total)
+}
+
+/// ndjson writer that escapes every non-ASCII character as \uXXXX (surrogate pairs above the BMP):
+/// TLC's Json module reads the trace in the JVM's default charset, which is not UTF-8 under the
+/// POSIX locale - raw UTF-8 strings such as "grün" and "grÜn" would collapse into one string.
+struct AsciiTracer {
+  out: std::io::BufWriter<std::fs::File>,
+  lines: usize,
+}
+
+impl AsciiTracer {
+  fn create(path: &std::path::Path) -> Result<Self> {
+    if let Some(p) = path.parent() {
+      std::fs::create_dir_all(p)?;
+    }
+    Ok(Self { out: std::io::BufWriter::new(std::fs::File::create(path)?), lines: 0 })
+  }
+  fn emit(&mut self, v: Value) {
+    use std::io::Write;
+    debug_assert!(no_null_or_float(&v), "trace value has null/float: {v}");
+    let raw = serde_json::to_string(&v).unwrap();
+    let mut line = String::with_capacity(raw.len() + 16);
+    for c in raw.chars() {
+      if c.is_ascii() {
+        line.push(c);
+      } else {
+        let mut buf = [0u16; 2];
+        for u in c.encode_utf16(&mut buf) {
+          line.push_str(&format!("\\u{:04x}", u));
+        }
+      }
+    }
+    self.out.write_all(line.as_bytes()).unwrap();
+    self.out.write_all(b"\n").unwrap();
+    self.lines += 1;
+  }
+  fn finish(mut self) -> usize {
+    use std::io::Write;
+    self.out.flush().unwrap();
+    self.lines
+  }
+}
+
 pub fn main(args: &Args) -> Result<()> {
   let mode = args.str("mode", "collapse");
   if mode == "adhoc" {
@@ -679,7 +857,7 @@ pub fn main(args: &Args) -> Result<()> {
   let out = args.str("out", "/verif/out/extras.ndjson");
   let n_scn = args.usize("scenarios", 8);
   let n_req = args.usize("requests", 30);
-  let mut tr = Tracer::create(std::path::Path::new(&out))?;
+  let mut tr = AsciiTracer::create(std::path::Path::new(&out))?;
   let mut total = 0usize;
   let mut scenarios = 0usize;
   if let Some(path) = args.get("cases") {
@@ -714,6 +892,7 @@ pub fn main(args: &Args) -> Result<()> {
         "collapse" => mode_collapse(&mut r, scn, n_req, &mut evs)?,
         "rescore" => mode_rescore(&mut r, scn, n_req, &mut evs)?,
         "highlight" => mode_highlight(&mut r, scn, n_req, &mut evs)?,
+        "suggest" => mode_suggest(&mut r, scn, n_req, &mut evs)?,
         other => anyhow::bail!("unknown extras mode {other}"),
       };
       scenarios += 1;
